@@ -49,6 +49,11 @@ CHECKS = {
          "For every program of the lazy/functions/objects/comprehensions corpora and every node: the number of times the node runs must equal the reference interpreter's count (0 = never, 1 = once however often it is used); a node that never runs can be replaced by `error` without changing the outcome; naming it with a local, passing it through an identity function, wrapping it in a one-element array or one-field object, adding dead locals/fields/parameters leaves value, message and std.trace output unchanged. Builtins taking functions are covered by templates with marked dead and shared positions.",
          "Trusted: refeval.rs memoisation semantics (per object value and layer); run counts compared only for programs yielding a value.",
          "DESIGN.md §4 C04"),
+ "C10": ("model_checking",
+         "exhaustive grid exploration (recursion shape x frame limit x depth) of the real evaluator on a 1 MiB native stack, with monotonicity and threshold invariants",
+         "36 recursion shapes (calls, thunk chains, comparison, string conversion, every manifester, self-dependent values, non-terminating programs) are run for every frame limit and depth of the grid: each run must end in a value, StackOverflow or InfiniteRecursion (never a panic or a dead process; depths up to 3*10^5 under a 1 MiB native stack), success is monotone in the limit with an identical value, cycles are reported as infinite recursion once the limit exceeds the cycle, non-terminating shapes never yield a value.",
+         "Trusted: nothing beyond the harness; recursion shapes outside the list and source-text nesting (parser) are not covered here.",
+         "DESIGN.md §4 C10"),
 }
 def main():
     hooks = subprocess.run(["git","-C","/repo","log","--format=%H %s"],capture_output=True,text=True).stdout.splitlines()
